@@ -36,7 +36,7 @@ META = dict(
     level_note=('Trusted: Lean kernel + standard axioms; translators/ns_usage.py, translators/ns_wrap.py (which functions count as load-side; only direct calls of the module-level tag are seen); '
                 'Pyc/Model/Namespace.lean; ElementTree\'s namespace handling. A hard-wired namespace reached through another route than calling tag() would only be '
                 'caught by the dynamic comparison.'),
-    technique='Lean 4 structural-induction theorem on namespace renaming + AST-derived table of tag usage + differential loading under several namespace URIs',
+    technique='Lean 4 structural-induction theorems on namespace renaming (load side) and on the namespace wrapper of save, whose steps are read from the source each run + AST-derived table of tag usage + differential loading under several namespace URIs + retag correspondence',
 )
 URIS = [docgen.NS141, docgen.NS15]
 
